@@ -370,6 +370,8 @@ def run(ctx, replay_jobs=None, replay_glue=None):
     glue = run_glue(ctx, rng, replay_glue) if replay_jobs is None else None
     if glue and glue["fails"]:
         fails += [("glue", g, m) for g, m in glue["fails"]]
+    if glue and glue["coq_err"]:
+        broken.append("cell-veto glue case files did not evaluate: " + glue["coq_err"][-600:])
 
     gf5 = glue["f5"] if glue else []
     if f5 or gf5:
@@ -400,6 +402,14 @@ def run(ctx, replay_jobs=None, replay_glue=None):
             C.violation(ctx, "oracle", {"kind": "c18-jobs", "jobs": [d], "message": m, "n_failing": len(fails),
                                         "impl_result": jobs[ji].res if si is None else jobs[ji].res["samples"][si]},
                         "C18 fails on the implementation: " + m)
+    elif glue and glue["mism"]:
+        C.violation(ctx, "correspondence", {
+            "kind": "c18-glue", "case": glue["mism"][0],
+            "message": "cell-veto glue model (coq/Model/CellVeto.v) and implementation disagree on %d grid(s); the "
+                       "Python oracle found no failing input; correspondence JF.Model.CellVetoCases.check_cvcase no "
+                       "longer checks (theorems event_time_not_before_stamp / target_cell_is_translate are no longer "
+                       "tied to the code)" % len(glue["mism"])},
+            "cell-veto glue model and implementation disagree", nofail=True)
     elif mism:
         ji, kind = mism[0]
         C.violation(ctx, "correspondence", {
@@ -457,6 +467,10 @@ def run_glue(ctx, rng, replay_glue=None):
 TRUSTED = [
     "hand-written model coq/Model/Walker.v (walker.py transcribed over Q; stacks as lists, fuel = n + 1)",
     "coq/Base/QInterval.v (probabilities as lengths of half-open rational intervals)",
+    "hand-written binary64 model coq/Model/CellVeto.v of the handler glue (Flocq floats via Base/F64.v, "
+    "Model/Time.time_add, Model/CellIndex.translate; Python 3.12 sum() = Neumaier compensated summation transcribed "
+    "from CPython's builtin_sum); theorems event_time_not_before_stamp / target_cell_is_translate use the stdlib "
+    "real-number axioms through Flocq (listed by Print Assumptions)",
     "harness/c18.py + drivers/c18_walker.py: exact-number wrapper around fractions.Fraction, replaced "
     "random.choice(seq) = seq[row] and random.uniform(a, b) = a + (b - a) * u, float bit (de)serialisation",
 ]
